@@ -300,7 +300,8 @@ def check(pid, tier, seed):
             name = '%s::%s::%s' % (r['unit'], (f['function'] or '?').split(' :: ')[-1], f['kind'])
             failed_obls.append((r, f, name))
     replay_bin = None
-    need_replay = bool(failed_obls) or bool(cfg.get('probes')) or any(k['status'] == 'FAILED' for k in kani_runs) or cfg.get('search_always')
+    applies = lambda e: e['property'] == pid or pid in e.get('also', [])
+    need_replay = bool(failed_obls) or any(applies(e) for e in known['findings'] + known.get('fixed', [])) or any(k['status'] == 'FAILED' for k in kani_runs) or cfg.get('search_always')
     if need_replay and os.path.exists(os.path.join(REPLAY_DIR, 'Cargo.toml.in')):
         try:
             replay_bin = replay_build()
